@@ -37,6 +37,11 @@ type EnumCase struct {
 	Text   string   `json:"enum_text"`
 	Items  []Item   `json:"items"`
 	Probes []string `json:"probes"`
+	// LenFirst: Len() is called on the rule object before Check()
+	LenFirst bool `json:"len_before_check,omitempty"`
+	// ClosingComment: a comment follows the closing bracket; which item (if any) it is attached
+	// to is not stated, so the last item's comment is not compared
+	ClosingComment bool `json:"comment_after_closing_bracket,omitempty"`
 }
 
 type RegexCase struct {
@@ -105,6 +110,12 @@ func checkEnum(t run.TB, c EnumCase) (dup bool) {
 		seen[itemKey(it)] = true
 	}
 	e := enum.New("@E", c.Text)
+	if c.LenFirst {
+		// the rule is measured before it is checked (the order an API description parser uses)
+		if _, p := safe(func() error { _, err := e.Len(); return err }); p != nil {
+			run.Fail(t, chkEnum, c, "enum.Len panicked: %v", p)
+		}
+	}
 	err, p := safe(e.Check)
 	if p != nil {
 		run.Fail(t, chkEnum, c, "enum.Check panicked: %v", p)
@@ -133,7 +144,7 @@ func checkEnum(t run.TB, c EnumCase) (dup bool) {
 		if string(lits[i].Value) != it.Tok || string(lits[i].Type) != schemaTypeOf(it) {
 			run.Fail(t, chkEnum, c, "Values()[%d] = (%s,%s), source item %d is (%s,%s)", i, lits[i].Value, lits[i].Type, i, it.Tok, schemaTypeOf(it))
 		}
-		if lits[i].Comment != it.Comment {
+		if lits[i].Comment != it.Comment && !(c.ClosingComment && i == len(c.Items)-1) {
 			run.Fail(t, chkEnum, c, "Values()[%d] comment %q, the item's comment is %q", i, lits[i].Comment, it.Comment)
 		}
 	}
@@ -151,7 +162,7 @@ func checkEnum(t run.TB, c EnumCase) (dup bool) {
 		}
 		it := c.Items[k]
 		wantVal := it.Tok
-		if ch.Value != wantVal || ch.SchemaType != schemaTypeOf(it) || ch.Comment != it.Comment {
+		if ch.Value != wantVal || ch.SchemaType != schemaTypeOf(it) || (ch.Comment != it.Comment && !(c.ClosingComment && k == len(c.Items)-1)) {
 			run.Fail(t, chkEnum, c, "GetAST child %d = {%q %s %q}, source item is {%q %s %q}", k, ch.Value, ch.SchemaType, ch.Comment, wantVal, schemaTypeOf(it), it.Comment)
 		}
 		k++
@@ -275,10 +286,25 @@ func TestNamedEnum(t *testing.T) {
 			}
 		}
 		b.WriteString(ws() + "]")
-		if rapid.Bool().Draw(t, "trailingNL") {
+		// what follows the closing bracket: nothing, blanks, a line break, a comment that the end of
+		// the text closes, a comment followed by a line break
+		switch rapid.IntRange(0, 7).Draw(t, "tail") {
+		case 0, 1:
 			b.WriteString(nl)
+		case 2:
+			b.WriteString(" // closing note")
+			hasComment = true
+		case 3:
+			b.WriteString(" // closing note" + nl)
+			hasComment = true
+		case 4:
+			b.WriteString(" /* closing note */")
+			hasComment = true
+		case 5:
+			b.WriteString("  ")
 		}
-		c := EnumCase{Text: b.String(), Items: items}
+		c := EnumCase{Text: b.String(), Items: items, LenFirst: rapid.IntRange(0, 2).Draw(t, "lenFirst") == 0,
+			ClosingComment: strings.Contains(b.String(), "closing note")}
 		for _, it := range pool {
 			c.Probes = append(c.Probes, it.Tok)
 		}
